@@ -158,17 +158,17 @@ static thread_local long long tl_pass_cost = 0, tl_lr_actions = 0, tl_lr_limit =
 bool g_slow_abandoned = false;
 long long g_pass_cost_cap = 60000000LL, g_lr_total_cap = 30000000LL;
 static void hook_trampoline(int site, long a, long b) {
-  g_progress = g_progress + 1;
+  __atomic_fetch_add(&g_progress, 1, __ATOMIC_RELAXED);   // free-running threads of the TSan stage pass here concurrently
   if (site == Theo::verif::MACRO_PASS) {
     if (a == 0) { tl_pass_cost = 0; tl_lr_total = 0; }
     tl_pass_cost += (long long)b * b;
-    if (tl_pass_cost > g_pass_cost_cap) { tl_pass_cost = 0; g_slow_abandoned = true; throw SimAbort(); }
+    if (tl_pass_cost > g_pass_cost_cap) { tl_pass_cost = 0; __atomic_store_n(&g_slow_abandoned, true, __ATOMIC_RELAXED); throw SimAbort(); }
   } else if (site == Theo::verif::MACRO_DETECT) {
     tl_lr_actions = 0; tl_lr_limit = 64 * ((long long)b - a + 64);
   } else if (site == Theo::verif::LR_ACTION) {
     // one prefix parse makes a bounded number of moves per remaining token (W2 judges a tighter bound under C02)
-    if (++tl_lr_actions > tl_lr_limit && tl_lr_limit > 0) { tl_lr_actions = 0; g_slow_abandoned = true; throw SimAbort(); }
-    if (++tl_lr_total > g_lr_total_cap) { tl_lr_total = 0; g_slow_abandoned = true; throw SimAbort(); }
+    if (++tl_lr_actions > tl_lr_limit && tl_lr_limit > 0) { tl_lr_actions = 0; __atomic_store_n(&g_slow_abandoned, true, __ATOMIC_RELAXED); throw SimAbort(); }
+    if (++tl_lr_total > g_lr_total_cap) { tl_lr_total = 0; __atomic_store_n(&g_slow_abandoned, true, __ATOMIC_RELAXED); throw SimAbort(); }
   }
   if (g_sink) g_sink->on_point(site, a, b);
 }
